@@ -133,7 +133,9 @@ def modelAnswer (r : Req) : String :=
   match (r.g.get r.root).asDict with
   | none => "root-not-dict"
   | some root =>
-    let rc := readerPageCount r.g root
+    let rc := match readerPageCount r.g root with
+      | some n => toString n
+      | none => "FUEL"
     match flatten r.g root with
     | none => s!"rc={rc} dc=FUEL"
     | some flat =>
